@@ -21,7 +21,8 @@ FUNCS = ["protocol.Context.shutdown", "TokenManager.shutdown/request/dispatch_er
 
 SCEN = [("con_wait_ack",), ("acked_wait_sep",), ("blockwise_upload",), ("client_obs",), ("server_slow",), ("server_observer",),
         ("backlog",), ("dedup",), ("con_wait_ack", "server_slow"), ("client_obs", "server_observer", "dedup"), ("non_wait",),
-        ("client_obs_pending",), ("client_obs_pending_blockwise",)]
+        ("client_obs_pending",), ("client_obs_pending_blockwise",), ("server_slow", "server_slow_rerequest"),
+        ("server_observer", "server_observer_rereg")]
 
 
 def mk_shutdown(si, race):
@@ -135,8 +136,16 @@ def mk_shutdown(si, race):
                     futs += [rq1.response, rq2.response]
                 if "server_slow" in flags:
                     A.deliver(Message(code=GET, _mtype=CON, _mid=77, _token=b"\x09", uri_path=["s"]).encode(), ("2001:db8::9", 999, 0, 0))
+                if "server_slow_rerequest" in flags:
+                    # the same peer starts a new request on the same token while the first handler is still running: the old
+                    # handler is stopped, the new one runs -- and has to be tracked for shutdown like any other
+                    A.deliver(Message(code=GET, _mtype=CON, _mid=81, _token=b"\x09", uri_path=["s"]).encode(), ("2001:db8::9", 999, 0, 0))
+                    assert slow.cancelled == 1
                 if "server_observer" in flags:
                     A.deliver(Message(code=GET, _mtype=CON, _mid=78, _token=b"\x0a", uri_path=["o"], observe=0).encode(), ("2001:db8::9", 998, 0, 0))
+                    assert obsres.count == 1
+                if "server_observer_rereg" in flags:
+                    A.deliver(Message(code=GET, _mtype=CON, _mid=82, _token=b"\x0a", uri_path=["o"], observe=0).encode(), ("2001:db8::9", 998, 0, 0))
                     assert obsres.count == 1
                 if "dedup" in flags:
                     A.deliver(Message(code=GET, _mtype=CON, _mid=79, _token=b"\x0b", uri_path=["f"]).encode(), ("2001:db8::9", 997, 0, 0))
@@ -167,7 +176,10 @@ def mk_shutdown(si, race):
                 if late_during is not None:
                     assert late_during.done() and isinstance(late_during.exception(), error.Error)
                 if "server_slow" in flags and t_shutdown < 5000:
-                    assert slow.cancelled == 1 and slow.finished == 0, "running handlers are cancelled"
+                    assert slow.cancelled == (2 if "server_slow_rerequest" in flags else 1) and slow.finished == 0, "running handlers are cancelled"
+                if "server_observer" in flags:
+                    assert obsres.count == 0, "observation registrations are ended by shutdown"
+                    obsres.updated_state()          # a state change after shutdown: nothing may be sent for it (checked below)
                 # a request submitted afterwards fails immediately with the shutdown error
                 q2 = Message(code=GET, uri_path=["after"])
                 q2.remote = A.remote(peer)
